@@ -92,19 +92,32 @@ impl C16 {
             mon.eval();
             mon.facet(&format!("grid:{op}"));
             let r = probe(|| if op == "add" { mk(a.0, a.1) + mk(b.0, b.1) } else { mk(a.0, a.1) * mk(b.0, b.1) });
+            // the compound-assignment forms are separate entry points to the same operation
+            let r_assign = probe(|| {
+                let mut x = mk(a.0, a.1);
+                if op == "add" {
+                    x += mk(b.0, b.1);
+                } else {
+                    x *= mk(b.0, b.1);
+                }
+                x
+            });
+            mon.eval();
+            for (form, r) in [("binary", r), ("assign", r_assign)] {
             match r {
-                Err(p) => mon.violation(format!("C16.panic:{op}"), format!("[{}, {}] {op} [{}, {}] panicked: {} at {}", a.0, a.1, b.0, b.1, p.message, p.location)),
+                Err(p) => mon.violation(format!("C16.panic:{op}"), format!("[{}, {}] {op} [{}, {}] ({form} form) panicked: {} at {}", a.0, a.1, b.0, b.1, p.message, p.location)),
                 Ok(res) => {
                     for x in points(a.0, a.1) {
                         for y in points(b.0, b.1) {
                             let v = if op == "add" { q(x) + q(y) } else { q(x) * q(y) };
                             if !contains(&res, &v, &zero) {
-                                mon.violation(format!("C16.enclosure:{op}"), format!("[{}, {}] {op} [{}, {}] = {res:?} does not contain {x} {op} {y} = {v}", a.0, a.1, b.0, b.1));
+                                mon.violation(format!("C16.enclosure:{op}"), format!("[{}, {}] {op} [{}, {}] ({form} form) = {res:?} does not contain {x} {op} {y} = {v}", a.0, a.1, b.0, b.1));
                                 return true;
                             }
                         }
                     }
                 }
+            }
             }
             return true;
         }
@@ -137,7 +150,37 @@ impl C16 {
             let s = scalars[(i % scalars.len() as u64) as usize];
             mon.evals(2);
             mon.facet("grid:scale");
-            for (side, r) in [("bound*f64", probe(|| mk(a.0, a.1) * s)), ("f64*bound", probe(|| s * mk(a.0, a.1)))] {
+            let assign = probe(|| {
+                let mut x = mk(a.0, a.1);
+                x *= s;
+                x
+            });
+            mon.eval();
+            // interval + scalar (a degenerate interval sum), all three spellings
+            for (side, r) in [
+                ("bound+f64", probe(|| mk(a.0, a.1) + s)),
+                ("f64+bound", probe(|| s + mk(a.0, a.1))),
+                ("bound+=f64", probe(|| {
+                    let mut x = mk(a.0, a.1);
+                    x += s;
+                    x
+                })),
+            ] {
+                mon.eval();
+                match r {
+                    Err(p) => mon.violation("C16.panic:add-scalar", format!("[{}, {}] + {s} ({side}) panicked: {} at {}", a.0, a.1, p.message, p.location)),
+                    Ok(res) => {
+                        for x in points(a.0, a.1) {
+                            let v = q(x) + q(s);
+                            if !contains(&res, &v, &zero) {
+                                mon.violation("C16.enclosure:add-scalar", format!("[{}, {}] + {s} ({side}) = {res:?} does not contain {x}+{s} = {v}", a.0, a.1));
+                                break;
+                            }
+                        }
+                    }
+                }
+            }
+            for (side, r) in [("bound*f64", probe(|| mk(a.0, a.1) * s)), ("f64*bound", probe(|| s * mk(a.0, a.1))), ("bound*=f64", assign)] {
                 match r {
                     Err(p) => mon.violation("C16.panic:scale", format!("[{}, {}] scaled by {s} ({side}) panicked: {} at {}", a.0, a.1, p.message, p.location)),
                     Ok(res) => {
@@ -523,7 +566,7 @@ impl Property for C16 {
         }
     }
     fn rule(&self) -> &'static str {
-        "the first G cases enumerate the grid exhaustively: all 43 valid intervals with endpoints in {-inf,-3,-2,-1/2,0,1/2,2,3,+inf}; every ordered pair under + and *, every interval under pow(0..8), under scaling by 10 non-zero scalars of both signs (0.5..2^20, 2^-20) from both sides, and as_integer_bound on intervals that contain an integer (fractional ends, +-1e-7 perturbations, half-infinite); each result must contain op(x,y) for all sample points (finite ends, interior, zero, +-2^20 on unbounded sides) with zero tolerance, without panicking. One remaining case in eight draws an interval with endpoints of extreme magnitude (m*2^e up to 2^212, +-2^63, 2^64, 1e19..1e300, infinite, degenerate) and either rounds it to integer endpoints (integers at both ends, 1 and 4096 inside, and the middle must be kept) or scales it from both sides by a non-zero dyadic number between 2^-300 and 2^72 (exact products; ends, zero and a far point on unbounded sides must be enclosed). The other cases alternate: evaluate_bound of a hostile function message of degree <= 4 over a box drawn from the grid (D) or random reals (R), some ids without bound, checked at 40 corner/face/interior points against the exact polynomial (zero tolerance in D, 2^-45 relative to the magnitude sum in R); and content_factor on functions whose coefficients are p/q (q<=60, lcm<=1e7) against lcm(q)/gcd(p) within 1 ulp. Non-trivial = non-constant function / >= 2 coefficients; distinct = fingerprint of (function, box)."
+        "the first G cases enumerate the grid exhaustively: all 43 valid intervals with endpoints in {-inf,-3,-2,-1/2,0,1/2,2,3,+inf}; every ordered pair under + and * (binary and compound-assignment forms), every interval plus a scalar (bound+f64, f64+bound, +=), every interval under pow(0..8), under scaling by 10 non-zero scalars of both signs (0.5..2^20, 2^-20) from both sides and as *=, and as_integer_bound on intervals that contain an integer (fractional ends, +-1e-7 perturbations, half-infinite); each result must contain op(x,y) for all sample points (finite ends, interior, zero, +-2^20 on unbounded sides) with zero tolerance, without panicking. One remaining case in eight draws an interval with endpoints of extreme magnitude (m*2^e up to 2^212, +-2^63, 2^64, 1e19..1e300, infinite, degenerate) and either rounds it to integer endpoints (integers at both ends, 1 and 4096 inside, and the middle must be kept) or scales it from both sides by a non-zero dyadic number between 2^-300 and 2^72 (exact products; ends, zero and a far point on unbounded sides must be enclosed). The other cases alternate: evaluate_bound of a hostile function message of degree <= 4 over a box drawn from the grid (D) or random reals (R), some ids without bound, checked at 40 corner/face/interior points against the exact polynomial (zero tolerance in D, 2^-45 relative to the magnitude sum in R); and content_factor on functions whose coefficients are p/q (q<=60, lcm<=1e7) against lcm(q)/gcd(p) within 1 ulp. Non-trivial = non-constant function / >= 2 coefficients; distinct = fingerprint of (function, box)."
     }
     fn assumptions(&self) -> Vec<&'static str> {
         vec!["scaling by 0 and magnitudes that overflow f64 are outside the statement", "as_integer_bound is only called on intervals that contain an integer"]
